@@ -28,6 +28,19 @@ CHECKS = {
         note="Trusted: E1/E2 semantics (E1 validated against its twin every C01 run), z3/cvc5. Schedules are fully symbolic "
              "for specifications with <= 6 (quick) / 8 (thorough) memory operations; larger ones are counted, not decided. "
              "Offsets/lengths < 2^32."),
+    "C03": dict(
+        level="translation_validation", design="5/C03", engine="pysym (Python AST -> z3) + E2/E1",
+        technique="symbolic execution of the rule/folding source (AST -> z3 bit-vectors), one SMT query per path against "
+                  "the EVM operator semantics; SMT equivalence of rules-on specifications vs the block",
+        text="The source of evaluate_expression, evaluate_expression_ter and apply_transform is re-read on every run and "
+             "executed symbolically from its AST with operands, constants and variable values symbolic over all of "
+             "[0,2^256); each path's result is compared by z3 with the EVM operator (and must not raise or build "
+             "unbounded integers). At block level the specification produced with rules on is decided against the block "
+             "for the rule families, and in size mode a sound lower bound of the rules-on code size is compared with the "
+             "original.",
+        note="Trusted: vlib.pysym's model of Python integers (520-bit signed bit-vectors with explicit no-overflow "
+             "obligations), E1 operator semantics, z3/cvc5. apply_cond_transformation (context rules) is covered at block "
+             "level only, on the F-rule pair/chain templates."),
     "C18": dict(
         level="translation_validation", design="5/C18", engine="z3 over enumerated formula shapes",
         technique="SMT equivalence (z3) of constructed formula, parsed SMT-LIB text and raw tree, for all valuations",
